@@ -80,9 +80,11 @@ func runOracle(property, tags string, budgetMs int, seed int) *oracleResult {
 	add("replay/hmac/*.go", "internal/hmac")
 	dir := filepath.Join(verifDir, "out", "replay")
 	os.MkdirAll(dir, 0o755)
-	ovFile := filepath.Join(dir, "overlay.json")
+	// one overlay file per process and property: checks may run concurrently
+	ovFile := filepath.Join(dir, fmt.Sprintf("overlay-%s-%d.json", property, os.Getpid()))
 	b, _ := json.Marshal(ov)
 	os.WriteFile(ovFile, b, 0o644)
+	defer os.Remove(ovFile)
 	args := []string{"test", "-v", "-overlay", ovFile, "-vet=off", "-count=1", "-timeout", "180s", "-run", "^TestOracle" + property + "$"}
 	var goTags []string
 	for _, t := range strings.Split(tags, ",") {
@@ -109,7 +111,8 @@ func runOracle(property, tags string, budgetMs int, seed int) *oracleResult {
 	r.duration = time.Since(t0).Seconds()
 	r.ran = true
 	r.output = out.String()
-	r.cmd = fmt.Sprintf("cd %s && ORACLE_BUDGET_MS=%d ORACLE_SEED=%d GOFLAGS=-mod=mod GOPROXY=off go %s", repoDir, budgetMs, seed+1, strings.Join(args, " "))
+	r.cmd = fmt.Sprintf("python3 /verif/tools/mkoverlay.py && cd %s && ORACLE_BUDGET_MS=%d ORACLE_SEED=%d GOFLAGS=-mod=mod GOPROXY=off go %s", repoDir, budgetMs, seed+1,
+		strings.Replace(strings.Join(args, " "), ovFile, "/verif/out/replay/overlay-manual.json", 1))
 	for _, l := range strings.Split(r.output, "\n") {
 		if strings.HasPrefix(l, "FAILING-INPUT: ") {
 			r.inputs = append(r.inputs, strings.TrimPrefix(l, "FAILING-INPUT: "))
